@@ -93,6 +93,16 @@ func (e *Exec) BgErrCount() int {
 	return len(e.BgErrs)
 }
 
+// BgErrsSince returns the OnError texts from index n on.
+func (e *Exec) BgErrsSince(n int) []string {
+	e.errMu.Lock()
+	defer e.errMu.Unlock()
+	if n >= len(e.BgErrs) {
+		return nil
+	}
+	return append([]string{}, e.BgErrs[n:]...)
+}
+
 // LastBgErr returns the newest OnError text.
 func (e *Exec) LastBgErr() string {
 	e.errMu.Lock()
